@@ -32,6 +32,10 @@ def jobs(tier):
         add(k=1, n=2, L=2, fast=False, nvt=0, real_arith=True)
         add(k=1, n=2, L=3, fast=False, nvt=0)
         add(k=1, n=2, L=4, fast=True, nvt=0)
+        # fast mode with FEW bits: symbols after the last information-carrying nucleotide must still be walked and validated
+        add(k=1, n=2, L=0, fast=True, nvt=0)
+        add(k=1, n=2, L=2, fast=True, nvt=0)
+        add(k=1, n=3, L=1, fast=True, nvt=0)
         add(k=1, n=2, L=3, fast=False, nvt=2)
         add(k=1, n=1, L=2, fast=True, nvt=1)
         add(k=2, n=2, L=3, fast=False, nvt=0)
@@ -41,6 +45,10 @@ def jobs(tier):
         for n in (0, 1, 2, 3):
             add(k=1, n=n, L=max(2 * n, 1), fast=False, nvt=0)
             add(k=1, n=n, L=max(2 * n, 1), fast=True, nvt=0)
+        add(k=1, n=2, L=0, fast=True, nvt=0)
+        add(k=1, n=3, L=2, fast=True, nvt=0)
+        add(k=1, n=3, L=1, fast=True, nvt=0)
+        add(k=2, n=3, L=2, fast=True, nvt=0)
         add(k=1, n=4, L=5, fast=False, nvt=0)
         add(k=1, n=3, L=4, fast=False, nvt=3)
         add(k=1, n=2, L=4, fast=True, nvt=2)
